@@ -673,9 +673,14 @@ class Interp:
 
     def bind_buffer(self, name, val, t, node):
         """`cdef np.ndarray[T, ndim=k] X = <python object>`: Cython acquires the buffer and checks dtype/ndim"""
-        if isinstance(val, AbstractBuf):
-            return val
         want = np_dtype_of(t.dtype)
+        if isinstance(val, AbstractBuf):
+            # Cython's generated buffer acquisition validates rank and element type
+            if val.ndim != t.ndim:
+                raise ValueError('Buffer has wrong number of dimensions (expected %d, got %d)' % (t.ndim, val.ndim))
+            if val.dtype != want:
+                raise ValueError("Buffer dtype mismatch, expected '%s' but got '%s'" % (want, val.dtype))
+            return val
         if isinstance(val, (SArr, _np.ndarray)):
             if val.ndim != t.ndim:
                 raise ValueError('Buffer has wrong number of dimensions (expected %d, got %d)' % (t.ndim, val.ndim))
